@@ -29,7 +29,8 @@ pub struct UserPanic(pub u32);
 
 /// canonical rendering of returned values; `addrs` collects the addresses of borrowed leaves
 pub trait Show { fn show(&self) -> String; fn addrs(&self, out: &mut Vec<usize>) {} }
-impl Show for Val { fn show(&self) -> String { format!("O{}g{}", self.id, self.gen) } }
+// g0 = the configured value itself (moved), g1 = a copy of it, however many clone hops away
+impl Show for Val { fn show(&self) -> String { format!("O{}g{}", self.id, self.gen.min(1)) } }
 impl Show for Tok { fn show(&self) -> String { format!("T{}", self.id) } }
 impl Show for str { fn show(&self) -> String { format!("{self}") } }
 impl Show for String { fn show(&self) -> String { format!("{self}") } }
